@@ -102,6 +102,23 @@ def mutants_of_line(line, py):
 		m = re.match(r"^(\s+)([A-Za-z_\*][\w\.\->\[\]\*]*\s*(=|\+=|-=|\|=|&=|\^=)[^=].*;|[A-Za-z_][\w]*\(.*\);)\s*$", code)
 		if m and code.count("(") == code.count(")"):
 			out.append(("stmt-deleted", m.group(1) + ";" + tail))
+	if os.environ.get("MUT_OPS") == "2":
+		# second operator set: structural rather than single-token
+		out = []
+		sub(r"\s*%\s*[A-Za-z_(][\w.()*/ ]*?(?=[)\],:;]|\s*$)", "", "modulo-removed")
+		sub(r"\bmin\(", "max(", "min->max"); sub(r"\bmax\(", "min(", "max->min")
+		sub(r"\[(\w+)\]", r"[\1 + 1]", "index+1"); sub(r"\[(\w+) - 1\]", r"[\1]", "index-1-removed")
+		# swap the two arguments of a two-argument call
+		sub(r"(\b[A-Za-z_][\w.]*)\(([\w.\[\]]+), ([\w.\[\]]+)\)", r"\1(\3, \2)", "args-swapped")
+		sub(r"(?<=[\w\)\]]) // (?=[\w\(])", " % ", "div->mod"); sub(r"(?<=[\w\)\]]) \* (?=[\w\(])", " + ", "mul->add")
+		if py:
+			sub(r"\[::-1\]", "", "reversal-removed"); sub(r"\bin\b(?! range)", "not in", "in->notin") if " not in " not in code else None
+			sub(r"\bbreak\b", "continue", "break->continue"); sub(r"\bcontinue\b", "break", "continue->break")
+			sub(r"\breturn (\w[\w.]*)$", "return None", "return-none")
+		else:
+			sub(r"\bbreak;", "continue;", "break->continue") if "switch" not in code else None
+			sub(r"\buint8_t\b", "int8_t", "u8->s8"); sub(r"\buint16_t\b", "uint8_t", "u16->u8"); sub(r"\buint32_t\b", "uint16_t", "u32->u16")
+			sub(r"\bint (\w+)( =|;|,)", r"unsigned int \1\2", "int->unsigned")
 	# restore string contents
 	res = []
 	for name, new in out:
@@ -170,6 +187,15 @@ def gen():
 						mid = hashlib.sha1(("%s|%s|%d|%s" % (p["id"], path, ln, mut)).encode()).hexdigest()[:10]
 						print(json.dumps({"id": mid, "property": p["id"], "file": path, "line": ln, "op": name,
 							"old": line, "new": mut, "mechanism": mech["name"][:80]}))
+					if os.environ.get("MUT_OPS") == "2" and ln + 1 <= len(new):
+						# swap two consecutive simple statements of the same indentation
+						a, b = line, new[ln]
+						ia, ib = len(a) - len(a.lstrip()), len(b) - len(b.lstrip())
+						simple = lambda x: re.match(r"^\s*[A-Za-z_][\w.\[\]]*\s*(=|\+=|-=)[^=]", x) is not None and not x.rstrip().endswith((",", "(", "\\", "{"))
+						if ia == ib and simple(a) and simple(b) and a.strip() != b.strip() and "sched_mframe" not in path:
+							mid = hashlib.sha1(("%s|%s|%d|swap" % (p["id"], path, ln)).encode()).hexdigest()[:10]
+							print(json.dumps({"id": mid, "property": p["id"], "file": path, "line": ln, "op": "stmts-swapped",
+								"old": line, "new": b + "\n" + a, "old2": b, "mechanism": mech["name"][:80]}))
 
 
 def prepare_worker(k):
@@ -185,7 +211,12 @@ def evaluate(mu, d):
 	src = open(path, errors = "replace").read().split("\n")
 	if src[mu["line"] - 1] != mu["old"]:
 		return {"id": mu["id"], "status": "stale"}
-	src[mu["line"] - 1] = mu["new"]
+	if "old2" in mu:
+		if src[mu["line"]] != mu["old2"]:
+			return {"id": mu["id"], "status": "stale"}
+		src[mu["line"] - 1:mu["line"] + 1] = mu["new"].split("\n")
+	else:
+		src[mu["line"] - 1] = mu["new"]
 	open(path, "w").write("\n".join(src))
 	try:
 		if mu["file"].endswith(".py"):
@@ -234,7 +265,7 @@ def run(path, nworkers, only = None):
 	mus = [json.loads(l) for l in open(path)]
 	if only:
 		mus = [m for m in mus if m["property"] in only]
-	outpath = os.path.join(VERIF, "mut", "results.files.jsonl" if "files" in path else "results.jsonl")
+	outpath = os.path.join(VERIF, "mut", "results.files.jsonl" if "files" in path else "results.ops2.jsonl" if "ops2" in path else "results.jsonl")
 	done = set()
 	if os.path.exists(outpath):
 		done = {json.loads(l)["id"] for l in open(outpath)}
